@@ -52,7 +52,7 @@ func rulesC11(c *Ctx) {
 // chanUse summarises how a channel-typed variable is used in a function and its callees.
 type chanUse struct {
 	recvPoll, recvBlocking, sendBlocking, sendNonBlocking, closes, deferredClose int
-	where                                                                     []string
+	where                                                                        []string
 }
 
 func (u *chanUse) add(o chanUse) {
